@@ -252,7 +252,9 @@ class StorageKeyMarkingConvention:
         Store a Kopf-branding marker to make this operator's prefix detectable.
         """
         value = 'yes'
-        if prefix and not prefix.startswith('kopf.'):
+        known = (prefix in self.__KNOWN_PREFIXES or
+                 any(prefix.endswith(f'.{p}') for p in self.__KNOWN_PREFIXES))
+        if prefix and not known:
             marker = f'{prefix}/kopf-managed'
             if marker not in body.metadata.annotations and marker not in patch.metadata.annotations:
                 patch.metadata.annotations[marker] = value
